@@ -32,6 +32,7 @@ type Scenario struct {
 	OuterBuf    bool         `json:"outer_buffer_in_ctx,omitempty"` // the context given to Run already carries StdoutBuffer/StderrBuffer values (a nested, buffering graph)
 	MaxParFirst int          `json:"max_par_first,omitempty"`       // an earlier SetMaxParallel call with this value (the later one wins)
 	SerialLast  bool         `json:"serial_last,omitempty"`         // SetSerial is called after SetMaxParallel instead of before
+	Inner       *InnerSpec   `json:"inner,omitempty"`               // a task that itself builds and runs another graph with the context it was given
 	Again       bool         `json:"run_again,omitempty"`           // single graph, no cancellation: call Run once more on the same graph after the last Run, whatever it returned
 	Family      string       `json:"family,omitempty"`              // graph shape family / sweep tag (informational)
 	Mode        string       `json:"mode,omitempty"`                // canonical | permuted | wild
@@ -57,6 +58,14 @@ func (sc *Scenario) ExtraPhases() []*Phase2Spec {
 	return out
 }
 
+// InnerSpec: task Host, on its first attempt, runs an inner graph of N independent tasks under its
+// own SetMaxParallel(MaxPar), passing on the context it received.
+type InnerSpec struct {
+	Host   int `json:"host"`
+	N      int `json:"n"`
+	MaxPar int `json:"max_par"`
+}
+
 type TaskSpec struct {
 	Attempts []AttemptSpec `json:"attempts"` // attempt k uses Attempts[min(k, len-1)]
 	// G1 (two graphs only): the behaviour of this task when it runs in graph g1, if it differs
@@ -66,7 +75,7 @@ type TaskSpec struct {
 
 type AttemptSpec struct {
 	Dur    int    `json:"dur"`              // simulated duration in poll ticks
-	Res    string `json:"res"`              // ok | err | skip | skipw | errs0 | errs1 (the task returns a *dag.Errors value: empty / with one entry)
+	Res    string `json:"res"`              // ok | err | skip | skipw | errs0 | errs1 (the task returns a *dag.Errors value: empty / with one entry) | errctx (an error wrapping context.DeadlineExceeded: the task's own timeout)
 	Chunks int    `json:"chunks,omitempty"` // output chunks written when buffering is on
 	Big    bool   `json:"big,omitempty"`    // the first chunk carries 70 KiB of padding (more than any sane internal buffer limit)
 	Cancel string `json:"cancel,omitempty"` // "", entry, exit: call cancel() there
@@ -105,7 +114,11 @@ func (c Call) String() string {
 		}
 		return s + ")"
 	case "retries":
-		return fmt.Sprintf("TaskRetries(t%02d, %d)", c.T, c.R)
+		s := fmt.Sprintf("TaskRetries(t%02d, %d)", c.T, c.R)
+		if c.Only != 0 {
+			s += fmt.Sprintf(" [g%d only]", c.Only-1)
+		}
+		return s
 	case "lookup":
 		return fmt.Sprintf("Task(\"t%02d\")", c.T)
 	case "addnil":
@@ -539,8 +552,8 @@ func genAttempts(r *simrt.RNG, retries int, faulty bool, faultP int, buffer bool
 		a := AttemptSpec{Res: "ok", Dur: []int{0, 1, 1, 2, 5, 40}[r.Intn(6)]}
 		if faulty && r.Intn(100) < faultP {
 			a.Res = []string{"err", "err", "err", "skip", "skipw"}[r.Intn(5)]
-			if r.Intn(12) == 0 {
-				a.Res = []string{"errs0", "errs1"}[r.Intn(2)]
+			if r.Intn(10) == 0 {
+				a.Res = []string{"errs0", "errs1", "errctx", "errctx"}[r.Intn(4)]
 			}
 		}
 		if buffer {
@@ -789,6 +802,32 @@ func Generate(seed uint64, o GenOpts) *Scenario {
 	}
 	if sc.Graphs == 1 && sc.Cancel.Kind == "none" && r.Intn(100) < 15 {
 		sc.Again = true
+	}
+	if sc.Graphs == 1 && !huge && r.Intn(100) < 8 {
+		sc.Inner = &InnerSpec{Host: r.Intn(sc.N), N: 3 + r.Intn(4), MaxPar: 1 + r.Intn(2)}
+	}
+	// an extreme retry count (the task succeeds early, so it does not run for ever)
+	if r.Intn(60) == 0 && sc.Graphs == 1 && sc.Phase2 == nil {
+		t := r.Intn(sc.N)
+		as := sc.Tasks[t].Attempts
+		ok := false
+		for k := range as {
+			if k < 3 && as[k].Res == "ok" {
+				ok = true
+			}
+		}
+		if !ok {
+			as[0].Res = "ok"
+		}
+		sc.Build = append(sc.Build, Call{Op: "retries", T: t, R: int(^uint(0) >> 1)})
+	}
+	// two graphs: a retry count declared in g0 only
+	if sc.Graphs == 2 && r.Intn(100) < 30 {
+		for i := range sc.Build {
+			if sc.Build[i].Op == "retries" && sc.Build[i].Via == "" && r.Intn(2) == 0 {
+				sc.Build[i].Only = 1
+			}
+		}
 	}
 	// Two graphs: a shared task may behave differently in g1 (different outcome, duration)
 	if sc.Graphs == 2 && r.Intn(100) < 35 {
